@@ -201,3 +201,33 @@ func refSessionUsable(stmts []*gt.Node) bool {
 	}
 	return true
 }
+
+// corruptVal reports a map (anywhere inside v) that holds the same key twice: not a value any program can write down.
+func corruptVal(v gt.Val, depth int) string {
+	if depth > 50 {
+		return ""
+	}
+	switch x := v.(type) {
+	case *gt.Arr:
+		for _, e := range x.E {
+			if w := corruptVal(e, depth+1); w != "" {
+				return w
+			}
+		}
+	case *gt.Map:
+		for i := range x.P {
+			for j := i + 1; j < len(x.P); j++ {
+				if gt.Same(x.P[i].K, x.P[j].K) {
+					return "key " + valStr(x.P[i].K) + " occurs twice in " + clip(valStr(x))
+				}
+			}
+			if w := corruptVal(x.P[i].K, depth+1); w != "" {
+				return w
+			}
+			if w := corruptVal(x.P[i].V, depth+1); w != "" {
+				return w
+			}
+		}
+	}
+	return ""
+}
